@@ -126,6 +126,11 @@ func (r *Runner) CreateScope(parent int, ctxKind int) (*ScopeRec, *Obs) {
 		rec.CtxKey, rec.CtxVal = ctxKeyT{tag}, fmt.Sprintf("val-%d", tag)
 		ctx, rec.Cancel = context.WithCancel(context.WithValue(context.Background(), rec.CtxKey, rec.CtxVal))
 	}
+	if ctxKind >= 10 { // gate context: Done() is a pre-emption point
+		base, cancel := context.WithCancel(context.Background())
+		rec.Cancel = cancel
+		ctx = GateCtx{Context: base, W: r.W}
+	}
 	rec.UserCtx = ctx
 	o := &Obs{Kind: "create", Scope: tag, StartSeq: r.W.NextSeq()}
 	rec.CreateBeg = o.StartSeq
